@@ -764,7 +764,10 @@ class Fn:
                             carried = True
                             continue            # carried round the loop
                         out.extend(self.split_defs({'copy': {'l': src['l'], 'p': list(pl['p'])}}, (e.block, e.idx), depth + 1, seen))
-                    elif rv['k'] == 'agg' and rv.get('agg') == 'tuple' and pl['p'][0]['f'] < len(rv['fields']):
+                    elif rv['k'] == 'agg' and (rv.get('agg') == 'tuple' or (
+                            rv.get('agg') == 'adt' and not (self.b.crate.adts.get(rv.get('adt')) or {'is_enum': True}).get('is_enum'))) and \
+                            pl['p'][0]['f'] < len(rv['fields']):
+                        # a tuple literal, or a literal of one of the crate's own structs (`Candidate { index, cost }`)
                         fo = rv['fields'][pl['p'][0]['f']]
                         fp = fo.get('move') or fo.get('copy')
                         if fp is not None and len(fp['p']) == 1 and isinstance(fp['p'][0], dict) and 'f' in fp['p'][0] and \
@@ -772,6 +775,11 @@ class Fn:
                             carried = True
                             continue
                         sub = self.split_defs(fo, (e.block, e.idx), depth + 1, seen)
+                        if len(sub) > 1:
+                            # the literal is the definition of this component: one entry, located at the literal, whatever
+                            # the history of the value put into it (`Candidate { index: nearest, .. }` with nearest found by a scan)
+                            merged = frozenset().union(*[t_ for (_b, _i, t_) in sub])
+                            sub = [(e.block, e.idx, merged)]
                         out.extend(sub)
                     else:
                         ok = False
